@@ -168,6 +168,7 @@ defaxiom colDef: (forall a int, h int {col(a, h, h)} :: col(a, h, h) == 0) &&
 macro colOf(r) = col(arrof(r.source), offof(r.source) + r.head, offof(r.source) + r.pos.Start)
 
 func (*reader).Source
+  refines text.Reader.Source via rdR
   ensures sameslice(result, r.source)
   modifies nothing
 
@@ -180,6 +181,7 @@ func (*reader).Value
   modifies nothing
 
 func (*reader).Peek
+  refines text.Reader.Peek via rdR
   uses spaceFacts
   requires readerInv(r)
   ensures r.pos.Start < r.sourceLength ==> result == (r.pos.Padding != 0 ? ' ' : r.source[r.pos.Start])
@@ -187,6 +189,7 @@ func (*reader).Peek
   modifies nothing
 
 func (*reader).PeekLine
+  refines text.Reader.PeekLine via rdR
   requires readerInv(r)
   ensures readerInv(r)
   ensures sameSeg(result1, r.pos) && sameSeg(r.pos, old(r.pos)) && r.line == old(r.line) && r.head == old(r.head) && r.lineOffset == old(r.lineOffset)
@@ -195,10 +198,12 @@ func (*reader).PeekLine
   modifies r.peekedLine
 
 func (*reader).Position
+  refines text.Reader.Position via rdR
   ensures result0 == r.line && sameSeg(result1, r.pos)
   modifies nothing
 
 func (*reader).AdvanceLine
+  refines text.Reader.AdvanceLine via rdR
   requires readerBase(r) && 0 <= r.pos.Stop && r.pos.Stop <= r.sourceLength && !r.pos.ForceNewline
   requires r.pos.Stop == 0 || r.pos.Stop == r.sourceLength || r.source[r.pos.Stop-1] == '\n'
   ensures readerInv(r)
@@ -212,6 +217,7 @@ func (*reader).AdvanceLine
   loop 0 dec r.sourceLength - i
 
 func (*reader).Advance
+  refines text.Reader.Advance via rdR
   requires readerInv(r) && 0 <= n && n <= remaining(r)
   ensures readerInv(r)
   ensures [moved] remaining(r) == old(remaining(r)) - n
@@ -224,6 +230,7 @@ func (*reader).Advance
   loop 0 dec n
 
 func (*reader).LineOffset
+  refines text.Reader.LineOffset via rdR
   uses colDef
   requires readerInv(r)
   ensures readerInv(r)
@@ -240,11 +247,13 @@ func (*reader).ResetPosition
   modifies r.lineOffset, r.peekedLine, r.pos, r.head, r.line
 
 func (*reader).SetPadding
+  refines text.Reader.SetPadding via rdR
   requires readerInv(r) && v >= 0
   ensures readerInv(r) && r.pos.Padding == v && r.pos.Start == old(r.pos.Start) && r.pos.Stop == old(r.pos.Stop) && r.line == old(r.line) && r.head == old(r.head)
   modifies r.pos, r.peekedLine, r.lineOffset
 
 func (*reader).AdvanceAndSetPadding
+  refines text.Reader.AdvanceAndSetPadding via rdR
   requires readerInv(r) && 0 <= n && n <= remaining(r) && padding >= 0
   ensures readerInv(r)
   modifies r.lineOffset, r.peekedLine, r.pos, r.head, r.line
@@ -256,6 +265,7 @@ macro validPos(r, p) = 0 <= p.Start && p.Start <= p.Stop && p.Stop <= r.sourceLe
   (p.Start == p.Stop ==> p.Start == r.sourceLength)
 
 func (*reader).SetPosition
+  refines text.Reader.SetPosition via rdR
   requires readerBase(r) && line >= 0 && validPos(r, pos)
   ensures readerInv(r) && r.line == line && sameSeg(r.pos, pos)
   modifies r.lineOffset, r.line, r.pos, r.peekedLine, r.head
@@ -286,20 +296,24 @@ macro remB(r) = (r.line < r.segmentsLength ? r.pos.Padding + r.pos.Stop - r.pos.
      lrem(arrof(segs(r)), offof(segs(r)) + r.line + 1, offof(segs(r)) + r.segmentsLength) : 0)
 
 func (*blockReader).Source
+  refines text.Reader.Source via rdB
   ensures sameslice(result, r.source)
   modifies nothing
 
 func (*blockReader).Position
+  refines text.Reader.Position via rdB
   ensures result0 == r.line && sameSeg(result1, r.pos)
   modifies nothing
 
 func (*blockReader).SetPadding
+  refines text.Reader.SetPadding via rdB
   requires brInv(r) && v >= 0
   ensures brInv(r) && r.pos.Padding == v && r.pos.Start == old(r.pos.Start) && r.pos.Stop == old(r.pos.Stop) && r.line == old(r.line)
   ensures r.lineOffset == -1
   modifies r.lineOffset, r.pos
 
 func (*blockReader).SetPosition
+  refines text.Reader.SetPosition via rdB
   requires brBase(r) && line >= 0
   requires (pos.Start != -1 && line < r.segmentsLength) ==> (segs(r)[line].Start <= pos.Start && pos.Start <= pos.Stop && pos.Stop == segs(r)[line].Stop && pos.Padding >= 0 && (pos.Stop < r.last ==> pos.Start < pos.Stop))
   ensures brInv(r) && r.line == line && r.lineOffset == -1
@@ -309,12 +323,14 @@ func (*blockReader).SetPosition
   modifies r.lineOffset, r.line, r.head, r.pos
 
 func (*blockReader).AdvanceLine
+  refines text.Reader.AdvanceLine via rdB
   requires brInv(r)
   ensures brInv(r) && r.line == old(r.line) + 1 && r.lineOffset == -1
   ensures r.line < r.segmentsLength ==> sameSeg(r.pos, segs(r)[r.line])
   modifies r.lineOffset, r.line, r.head, r.pos
 
 func (*blockReader).Peek
+  refines text.Reader.Peek via rdB
   uses spaceFacts
   requires brInv(r)
   ensures (r.line < r.segmentsLength && r.pos.Start < r.last) ==> result == (r.pos.Padding != 0 ? ' ' : r.source[r.pos.Start])
@@ -322,6 +338,7 @@ func (*blockReader).Peek
   modifies nothing
 
 func (*blockReader).PeekLine
+  refines text.Reader.PeekLine via rdB
   requires brInv(r)
   ensures sameSeg(result1, r.pos)
   ensures (r.line < r.segmentsLength && r.pos.Start < r.last) ==> (result0 != nil &&
@@ -342,6 +359,7 @@ func (*blockReader).Value
   loop 2 inv fresh(ret) && 0 <= line
 
 func (*blockReader).Advance
+  refines text.Reader.Advance via rdB
   uses lremDef
   requires brInv(r) && 0 <= n && n <= remB(r)
   ensures brInv(r) && r.lineOffset == -1
@@ -354,8 +372,123 @@ func (*blockReader).Advance
   loop 0 dec n
 
 func (*blockReader).AdvanceAndSetPadding
+  refines text.Reader.AdvanceAndSetPadding via rdB
   uses lremDef
   requires brInv(r) && 0 <= n && n <= remB(r) && padding >= 0
   ensures brInv(r)
   modifies r.lineOffset, r.line, r.head, r.pos
+
+// ======== the cursor model of a text.Reader at interface level (C08 line discipline, C05, C01) ========
+// Abstract state of a Reader value r; every implementation gives these symbols a concrete meaning
+// (absmacro rdR: *reader, absmacro rdB: *blockReader) and is verified against the interface contracts
+// below under that meaning (`refines`).
+ghost srcLenOf(r addr) int            // length of the source the Reader reads
+ghost srcArrOf(r addr) int            // backing array and offset of Source()
+ghost srcOffOf(r addr) int
+ghost plainReader(r addr) bool        // a reader over the whole source: positions never force a newline
+ghost var rdRep(r addr) bool          // the implementation's representation invariant
+ghost var rdLive(r addr) bool         // not at the end: PeekLine returns a line
+ghost var rdLine(r addr) int          // current line number
+ghost var rdStart(r addr) int         // current position (the segment PeekLine returns)
+ghost var rdStop(r addr) int
+ghost var rdPad(r addr) int
+ghost var rdRem(r addr) int           // number of view bytes from the cursor to the end
+ghost var rdPosOK(r addr, line int, start int, stop int, pad int, force bool) bool   // a position Position() may have returned
+macro rdLen(r) = rdPad(r) + rdStop(r) - rdStart(r)
+macro srcByte(r, k) = membyte(srcArrOf(r), srcOffOf(r) + (k))
+macro rdShape(r) = rdLive(r) ==> (0 <= rdStart(r) && rdStart(r) < rdStop(r) && rdStop(r) <= srcLenOf(r) && rdPad(r) >= 0 && rdRem(r) >= rdLen(r) && rdLine(r) >= 0)
+macro rdOK(r) = rdRep(r) && rdShape(r)
+macro rdSeg(s, r) = s.Start == rdStart(r) && s.Stop == rdStop(r) && s.Padding == rdPad(r)
+macro rdSame(r) = rdLive(r) == old(rdLive(r)) && rdLine(r) == old(rdLine(r)) && rdStart(r) == old(rdStart(r)) && rdStop(r) == old(rdStop(r)) && rdPad(r) == old(rdPad(r)) && rdRem(r) == old(rdRem(r))
+
+iface text.Reader.Source
+  ensures len(result) == srcLenOf(recv) && arrof(result) == srcArrOf(recv) && offof(result) == srcOffOf(recv)
+  modifies nothing
+
+iface text.Reader.PeekLine
+  requires rdOK(recv)
+  ensures rdOK(recv)
+  ensures rdSeg(result1, recv)
+  ensures (result0 != nil) <==> rdLive(recv)
+  ensures rdLive(recv) ==> (rdLen(recv) <= len(result0) && len(result0) <= rdLen(recv) + 1)
+  ensures (rdLive(recv) && plainReader(recv)) ==> (len(result0) == rdLen(recv) && !result1.ForceNewline)
+  ensures rdLive(recv) ==> (forall k int {result0[k]} :: rdPad(recv) <= k && k < rdLen(recv) ==> result0[k] == srcByte(recv, rdStart(recv) + k - rdPad(recv)))
+  ensures rdLive(recv) ==> (forall k int {result0[k]} :: 0 <= k && k < rdPad(recv) ==> result0[k] == ' ')
+  modifies nothing
+
+iface text.Reader.Peek
+  requires rdOK(recv)
+  ensures rdLive(recv) ==> result == (rdPad(recv) != 0 ? ' ' : srcByte(recv, rdStart(recv)))
+  ensures !rdLive(recv) ==> result == 255
+  modifies nothing
+
+iface text.Reader.Advance
+  requires rdOK(recv) && 0 <= n && n <= rdRem(recv)
+  ensures rdOK(recv)
+  ensures [moved] rdRem(recv) == old(rdRem(recv)) - n
+  ensures [sameLine] (old(rdLive(recv)) && n < old(rdLen(recv))) ==> (rdLive(recv) && rdLine(recv) == old(rdLine(recv)) && rdStop(recv) == old(rdStop(recv)) && rdLen(recv) == old(rdLen(recv)) - n)
+  modifies rdRep, rdLive, rdLine, rdStart, rdStop, rdPad, rdRem
+
+iface text.Reader.AdvanceLine
+  requires rdOK(recv)
+  ensures rdOK(recv) && rdLine(recv) == old(rdLine(recv)) + 1
+  modifies rdRep, rdLive, rdLine, rdStart, rdStop, rdPad, rdRem
+
+iface text.Reader.AdvanceAndSetPadding
+  requires rdOK(recv) && 0 <= n && n <= rdRem(recv) && padding >= 0
+  ensures rdOK(recv)
+  ensures [sameLine] (old(rdLive(recv)) && n < old(rdLen(recv))) ==> (rdLive(recv) && rdLine(recv) == old(rdLine(recv)) && rdStop(recv) == old(rdStop(recv)))
+  modifies rdRep, rdLive, rdLine, rdStart, rdStop, rdPad, rdRem
+
+iface text.Reader.SetPadding
+  requires rdOK(recv) && arg0 >= 0
+  ensures rdOK(recv) && rdLive(recv) == old(rdLive(recv)) && rdLine(recv) == old(rdLine(recv)) && rdStart(recv) == old(rdStart(recv)) && rdStop(recv) == old(rdStop(recv)) && rdPad(recv) == arg0
+  modifies rdRep, rdPad, rdRem
+
+iface text.Reader.LineOffset
+  requires rdOK(recv)
+  ensures rdOK(recv)
+  modifies nothing
+
+iface text.Reader.Position
+  requires rdOK(recv)
+  ensures result0 == rdLine(recv) && rdSeg(result1, recv)
+  ensures rdPosOK(recv, result0, result1.Start, result1.Stop, result1.Padding, result1.ForceNewline)
+  modifies nothing
+
+iface text.Reader.SetPosition
+  requires rdRep(recv) && rdPosOK(recv, arg0, arg1.Start, arg1.Stop, arg1.Padding, arg1.ForceNewline)
+  ensures rdOK(recv) && rdLine(recv) == arg0
+  modifies rdRep, rdLive, rdLine, rdStart, rdStop, rdPad, rdRem
+
+// ---- *reader under the cursor model ----
+absmacro rdR srcLenOf(x) = len(x.source)
+absmacro rdR srcArrOf(x) = arrof(x.source)
+absmacro rdR srcOffOf(x) = offof(x.source)
+absmacro rdR plainReader(x) = true
+absmacro rdR rdRep(x) = readerInv(x)
+absmacro rdR rdLive(x) = x.pos.Start < x.sourceLength
+absmacro rdR rdLine(x) = x.line
+absmacro rdR rdStart(x) = x.pos.Start
+absmacro rdR rdStop(x) = x.pos.Stop
+absmacro rdR rdPad(x) = x.pos.Padding
+absmacro rdR rdRem(x) = remaining(x)
+absmacro rdR rdPosOK(x, l, s, e, p, f) = l >= 0 && 0 <= s && s <= e && e <= x.sourceLength && p >= 0 && !f &&
+  (forall k int :: s <= k && k < e - 1 ==> x.source[k] != '\n') &&
+  (e < x.sourceLength ==> (e > 0 && x.source[e-1] == '\n')) && (s == e ==> s == x.sourceLength)
+
+// ---- *blockReader under the cursor model ----
+absmacro rdB srcLenOf(x) = len(x.source)
+absmacro rdB srcArrOf(x) = arrof(x.source)
+absmacro rdB srcOffOf(x) = offof(x.source)
+absmacro rdB plainReader(x) = false
+absmacro rdB rdRep(x) = brInv(x)
+absmacro rdB rdLive(x) = x.line < x.segmentsLength && x.pos.Start < x.last
+absmacro rdB rdLine(x) = x.line
+absmacro rdB rdStart(x) = x.pos.Start
+absmacro rdB rdStop(x) = x.pos.Stop
+absmacro rdB rdPad(x) = x.pos.Padding
+absmacro rdB rdRem(x) = remB(x)
+absmacro rdB rdPosOK(x, l, s, e, p, f) = l >= 0 && ((s != -1 && l < x.segmentsLength) ==>
+  (segs(x)[l].Start <= s && s <= e && e == segs(x)[l].Stop && p >= 0 && (e < x.last ==> s < e)))
 @*/
